@@ -1,6 +1,9 @@
 pub mod c02;
 pub mod c03;
 pub mod c04;
+pub mod c07;
+pub mod c10;
+pub mod c13;
 pub mod c14;
 pub mod c17;
 pub mod life;
@@ -27,6 +30,9 @@ pub fn plan(prop: &str, tier: Tier, seed: u64) -> Option<Plan> {
     "C03" => Some(c03::plan(tier, seed)),
     "C04" => Some(c04::plan(tier, seed)),
     "C14" => Some(c14::plan(tier, seed)),
+    "C07" => Some(c07::plan(tier, seed)),
+    "C13" => Some(c13::plan(tier, seed)),
+    "C10" => Some(c10::plan(tier, seed)),
     "C17" => Some(c17::plan(tier, seed)),
     "C01" => Some(life::plan("C01", tier, seed)),
     "C05" => Some(life::plan("C05", tier, seed)),
@@ -43,6 +49,9 @@ pub fn by_name(name: &str) -> Option<Arc<dyn Harness>> {
     "C03" => c03::by_name(name),
     "C04" => c04::by_name(name),
     "C14" => c14::by_name(name),
+    "C07" => c07::by_name(name),
+    "C13" => c13::by_name(name),
+    "C10" => c10::by_name(name),
     "C17" => c17::by_name(name),
     "C01" | "C05" | "C06" => life::by_name(name),
     _ => None,
